@@ -51,12 +51,14 @@ def gen_case(rng: random.Random, tier: str):
     for t in range(nthreads):
         ops = ["parse"]
         r = rng.random()
-        if r < 0.35:
+        if r < 0.3:
             ops.append("dumps")  # the write path shares the same type objects
-        elif ptrs and r < 0.75:
+        elif ptrs and r < 0.6:
             ops.append("deref")  # lazy dereference is deferred I/O on the thread's own stream through SHARED pointer types
-        elif r < 0.85:
-            ops.append(rng.choice(["dumps", "deref", "parse2"]))
+        elif r < 0.8:
+            ops.append("parse2")  # the same bytes once more: anything remembered from the first parse is still "valid"
+        elif r < 0.88:
+            ops.append(rng.choice(["dumps", "deref"]))
         threads.append({"data_seed": rng.getrandbits(32), "data": None, "ops": ops, "root": rng.randrange(8)})
     return {"cfg": cfg, "defs": defs, "threads": threads, "sched_seed": rng.getrandbits(32),
             "n_sched": 24 if tier == "quick" else 60, "trace_enum": rng.random() < 0.3, "opcodes": False,
@@ -92,7 +94,7 @@ def _root_of(cs, case, th):
     return getattr(cs, names[-1] if r < 5 else names[r % len(names)])
 
 
-def make_script(root, th):
+def make_script(root, th, mark=None):
     data = bytes.fromhex(th["data"])
     ops = th["ops"]
 
@@ -101,6 +103,8 @@ def make_script(root, th):
         v = None
         stream = None
         for op in ops:
+            if mark is not None:
+                mark()  # records the scheduler step at which this op starts (baseline run only)
             try:
                 if op == "parse" or op == "parse2":
                     stream = io.BytesIO(data)
@@ -159,7 +163,10 @@ def run_case(case, stats):
         cs2, root2 = _load(case)
         sch = Sched(n, preempts, lib_root, trace_enum=case["trace_enum"], opcodes=case["opcodes"], order=case["order"])
         sch.record = record
-        scripts = [make_script(_root_of(cs2, case, th), th) for th in case["threads"]]
+        marks = {i: [] for i in range(n)}
+        sch.op_marks = marks
+        scripts = [make_script(_root_of(cs2, case, th), th, (lambda i=i: marks[i].append(sch.step)) if record else None)
+                   for i, th in enumerate(case["threads"])]
         try:
             got = sch.run(scripts)
         except HarnessError as e:
@@ -219,6 +226,24 @@ def run_case(case, stats):
             rB = [t for t in order if t != A].index(B)
             rA = [t for t in order if t != B].index(A)
             scheds.append([[a + 1, rB], [a + b + 2, rA]])
+        # sandwich schedules: the first thread completes one op, another thread is stopped somewhere inside its own op,
+        # the first thread runs its NEXT op, then the other resumes (state remembered from an earlier call of the first
+        # thread meets a half-finished call of the other)
+        mA = sch0.op_marks.get(A, [])
+        if len(mA) >= 2:
+            for _ in range(8 if case["n_sched"] <= 24 else 30):
+                B = srng.choice([t for t in order if t != A])
+                tb = per.get(B, [])
+                if not tb:
+                    continue
+                # stop the other thread inside a function that the first thread's next op will run as well
+                fa = set(ta[mA[1]:])
+                cand = [i for i, k in enumerate(tb) if k in fa] or list(range(len(tb)))
+                b = srng.choice(cand)
+                s1 = mA[1] + 1  # first yield point of A's second op
+                rB = [t for t in order if t != A].index(B)
+                rA = [t for t in order if t != B].index(A)
+                scheds.append([[s1, rB], [s1 + b + 1, rA]])
         case["schedules"] = scheds
     for si, preempts in enumerate(case["schedules"]):
         got, sch = execute(preempts)
